@@ -237,7 +237,7 @@ def main():
     repo = sys.argv[4] if len(sys.argv) > 4 else '/repo'
     sys.path.insert(0, repo)
     out = {'property': pid, 'cases': 0, 'failures': [], 'samples': [], 'ops': [], 'space': ''}
-    if pid in ('C01', 'C06'):
+    if pid in ('C01', 'C06', 'C07', 'C11', 'C12'):
         # (C06: map_partitions zips several streaming operands with literal operands through zip.pack_literals)
         n = 6 if tier == 'quick' else 8
         c, f, s = check_pack_literals(n)
